@@ -335,6 +335,34 @@ def replay_case(spec, ops):
     return orc.errors
 
 
+def shrink(spec, ops, signature, budget=150):
+    """Delta debugging over the op list: smallest history that still fails with the same signature."""
+    def fails(o):
+        try:
+            for s, m in replay_case(spec, o):
+                if s == signature:
+                    return m
+        except Exception:  # noqa: BLE001
+            return None
+        return None
+    what = fails(ops)
+    if what is None:
+        return ops, None
+    ops = list(ops)
+    changed = True
+    while changed and budget > 0:
+        changed = False
+        for i in range(len(ops) - 1, -1, -1):
+            cand = ops[:i] + ops[i + 1:]
+            budget -= 1
+            w = fails(cand)
+            if w is not None:
+                ops, what, changed = cand, w, True
+            if budget <= 0:
+                break
+    return ops, what
+
+
 # ---------------------------------------------------------------- correspondence for the two modelled learners
 def seq_history(rng, n, maxlen):
     h = []
@@ -457,6 +485,7 @@ def run(chk: Check) -> int:
     with cf.ProcessPoolExecutor(max_workers=NPROC) as ex:
         for r in ex.map(run_case, jobs, chunksize=1):
             results.append(r)
+    shrunk = {}
     per_type, kinds, tot = {}, {}, {"retell_same": 0, "retell_alt": 0, "unsolicited": 0, "discard_with_pending": 0, "batch": 0}
     for r in results:
         name = G.spec_name(c09._sig_spec(r["spec"]))
@@ -475,7 +504,16 @@ def run(chk: Check) -> int:
         if r["len"] > 8:
             chk.sample({"learner": G.spec_name(r["spec"]), "ops": r["ops"][:6]})
         for f in r["fails"][:2]:
+            if f["signature"] not in shrunk:
+                ops, what = shrink(f["replay"]["spec"], f["replay"]["ops"], f["signature"])
+                if what is not None:
+                    f = {"signature": f["signature"], "what": what + " [minimised]", "replay": dict(f["replay"], ops=ops)}
+                shrunk[f["signature"]] = f
+                chk.failures.insert(0, f)
+                continue
             chk.fail(f["signature"], f["what"], f["replay"])
+    chk.extra["minimised_failing_inputs"] = {s: {"learner": G.spec_name(f["replay"]["spec"]), "ops": f["replay"]["ops"]}
+                                             for s, f in shrunk.items()}
     chk.extra.update({"histories_per_learner_type": per_type, "op_histogram": kinds, "feature_counts": tot,
                       "configurations": len(specs), "exhaustive": False, "learner2d_runs_here": not l2d_exc,
                       "balancing_over_integrator_skipped": bool(bi_exc)})
